@@ -754,6 +754,10 @@ def history(c):
                            f'shape {arg.shape} raises TypeError: {e}',
                            repr(e))
                     setattr(real, attr, float(arg.ravel()[0]))
+                # the caller keeps using (and overwriting) the array handed
+                # over: the survey holds the values as they were assigned
+                if arg is not None and arg.ndim > 0 and arg.flags.writeable:
+                    arg *= 3.7
                 model.assign(which, val)
                 tr.settings(real, model, k, 'current', step)
                 tr.data(real, model, k, 'current', step)
@@ -945,7 +949,7 @@ def selection_cases(tier):
 FN_SIM = 'mc.checks.c13_noise:simhistory'
 SIM_OPS = ['misfit', 'nf:scalar', 'nf:full', 're:scalar', 're:rec', 're:none',
            'sd:full', 'sd:none', 'clean:computed', 'clean:all',
-           'clean:keepresults']
+           'clean:keepresults', 'newsim:same', 'newsim:copy']
 SIM_STARTS = {'A': {'nf': 'scalar', 're': 'scalar', 'nan': 'none'},
               'B': {'nf': 'src', 're': 'none', 'nan': 'one'}}
 
@@ -1017,7 +1021,7 @@ def simhistory(c):
                     compared += 2
                     if not abs(m - m_ref) <= 1e-11*abs(m_ref):
                         viol.append({
-                            'cls': 'misfit-after-clean-ignores-current-'
+                            'cls': 'misfit-from-scratch-ignores-current-'
                                    'noise-settings' if i else
                                    'misfit-differs-from-noise-model',
                             'what': where + f': misfit {m!r}, noise model '
@@ -1037,6 +1041,16 @@ def simhistory(c):
                 sim.clean(what)
                 if what in ('computed', 'all'):
                     cached, stale = False, False
+            elif op.startswith('newsim:'):
+                # a NEW Simulation on the same survey object (or a copy of
+                # it): nothing of an earlier simulation may survive in it
+                sv = sim.survey if op.endswith('same') else sim.survey.copy()
+                sim = emg3d.Simulation(
+                    sv, tiny_model(), gridding='same', max_workers=1,
+                    verb=-1, tqdm_opts=False,
+                    receiver_interpolation='linear',
+                    solver_opts={'maxit': 1, 'verb': 0})
+                cached, stale = False, False
             else:
                 which = op.split(':')[0]
                 val = _sim_value(op, shape)
@@ -1086,6 +1100,7 @@ def sim_cases(depth):
                 # two cleans / two assignments of the same setting in a row
                 # reach the same state as the last one alone
                 if any(a.split(':')[0] == b.split(':')[0] and a != 'misfit'
+                       and not a.startswith('newsim')
                        for a, b in zip(ops, ops[1:])):
                     continue
                 out.append({'start': start, 'ops': list(ops)})
